@@ -9,7 +9,10 @@ C04_PARAMS = [dict(max_nodes=4, syms=(None, '=', '.'), max_rings=1, markers=('1'
                    max_depth=3, max_branches=2),
               dict(max_nodes=5, syms=(None, '#'), max_sym_slots=1, max_rings=1, markers=('2',), ring_syms=(None,),
                    max_depth=4, max_branches=2),
-              dict(max_nodes=3, syms=(None, '#'), max_rings=0, node_mults=('2', '3'), max_mults=2)]
+              dict(max_nodes=3, syms=(None, '#'), max_rings=0, node_mults=('2', '3'), max_mults=2),
+              # a ring id closed and reopened behind the same node (two rings sharing a node), every spelling pair
+              dict(max_nodes=5, syms=(None,), max_rings=0, ring_syms=(None, '='), max_depth=2, max_branches=1,
+                   reuse=(('1', '1', '1'), ('1', '%01', '1'), ('%12', '%12', '%12'), ('%01', '1', '%01')))]
 C05_PARAMS = [dict(max_nodes=3, syms=(None, '#'), max_rings=0, node_mults=('2', '3'), branch_mults=('1', '2', '3'), max_mults=2),
               dict(max_nodes=4, syms=(None, '='), max_sym_slots=1, max_rings=0, node_mults=('2',), branch_mults=('2', '3'),
                    max_mults=2)]
